@@ -103,6 +103,18 @@ def proof_stage(rep, prop, imports, obligations, general_theorems, atoms_expr=No
             for a in ax:
                 if a not in common.ALLOWED_AXIOMS:
                     bad_axioms.append((t, a))
+    # thorough tier: the toolchain's independent re-checker replays the compiled modules
+    rechecked = []
+    if ok and getattr(rep, "tier", "quick") == "thorough":
+        import subprocess
+        for m_ in [mod] + [i for i in imports if i.startswith("O1722.Props.")]:
+            with common.Lock("lake"):
+                r = subprocess.run(["lake", "env", "leanchecker", m_], cwd=LEAN, capture_output=True, text=True)
+            rechecked.append(m_)
+            if r.returncode != 0:
+                failed_thms.append("leanchecker:" + m_)
+                log += "\nleanchecker %s:\n%s" % (m_, (r.stdout + r.stderr)[-1500:])
+        rep.cov["leanchecker_modules"] = rechecked
     hits = common.audit_sources()
     rep.cov.setdefault("obligations", 0)
     rep.cov["obligations"] += len(general_theorems) + len(obligations)
